@@ -111,6 +111,7 @@ class LocalDefs:
 
     def __init__(self, fnode):
         self.defs = {}
+        self.stores = {}     # name -> values stored INTO it (x[i] = v, x.a = v)
         for st in iter_stmts(fnode.body):
             if isinstance(st, ast.Assign):
                 for t in st.targets:
@@ -127,6 +128,14 @@ class LocalDefs:
                         self._bind(it.optional_vars, it.context_expr)
 
     def _bind(self, target, value, loop=False, idx=None):
+        if isinstance(target, (ast.Subscript, ast.Attribute)):
+            # x[i] = v / x.a = v : the stored value flows into x (kept apart from the bindings of x so that "bound exactly once" stays meaningful)
+            root = target
+            while isinstance(root, (ast.Subscript, ast.Attribute)):
+                root = root.value
+            if isinstance(root, ast.Name):
+                self.stores.setdefault(root.id, []).append(value)
+            return
         if isinstance(target, ast.Name):
             self.defs.setdefault(target.id, []).append((value, idx, loop))
         elif isinstance(target, (ast.Tuple, ast.List)):
@@ -148,6 +157,8 @@ class LocalDefs:
                 if isinstance(n, ast.Name) and n.id not in seen_names:
                     seen_names.add(n.id)
                     for (v, _i, _l) in self.defs.get(n.id, []):
+                        work.append(v)
+                    for v in self.stores.get(n.id, []):
                         work.append(v)
         return out, seen_names
 
